@@ -16,5 +16,12 @@ for p in $props; do
     if [ $rc -eq 1 ]; then echo "caught   $m ($n obligations; first: $first)"; else echo "MISSED   $m (exit $rc)"; fail=1; fi
   done
 done
+# known findings double as canaries: without the known-findings file the check must raise the alarm
+for p in $props; do
+  if grep -q "^finding: property=$p " known_findings.txt 2>/dev/null; then
+    ./check $p -timeout ${SELFTEST_TIMEOUT:-10} -no-evidence -known /dev/null > /tmp/selftest.$$.log 2>&1; rc=$?
+    if [ $rc -eq 1 ]; then echo "caught   canary: known findings of $p are reported as violations when not listed"; else echo "MISSED   canary for $p (exit $rc)"; fail=1; fi
+  fi
+done
 rm -f /tmp/selftest.$$.log
 exit $fail
